@@ -629,6 +629,8 @@ func (x *Exec) heapArr(st *State, name string, idx, elt Sort) *Term {
 			st.fwd = map[string]*fwdCache{}
 		}
 		st.fwd[name] = &fwdCache{arr: t.S, ent: map[string]*Term{}, base: base, allFresh: true}
+		// the same fact for the solver: memory that existed at entry reads as before the loop
+		st.Assume(&Term{S: fmt.Sprintf("(forall ((|lo?r| Int)) (! (=> (<= |lo?r| (* %d |alloc0|)) (= (select %s |lo?r|) (select %s |lo?r|))) :pattern ((select %s |lo?r|))))", refK, t.S, base.S, t.S), Sort: SBool})
 	}
 	if gen == "0" {
 		if x.arrBorn == nil {
